@@ -109,10 +109,11 @@ func (i *itemsValidator) Validate(index int, data interface{}) *Result {
 		}
 
 		validator.SetPath(path)
-		err := validator.Validate(data)
 		if i.Options.recycleValidators {
-			i.validators[idx] = nil // prevents further (unsafe) usage
+			// the validator redeems itself when it returns or panics: release the slot first
+			i.validators[idx] = nil
 		}
+		err := validator.Validate(data)
 		if err != nil {
 			result.Inc()
 			if err.HasErrors() {
@@ -390,10 +391,11 @@ func (p *HeaderValidator) Validate(data interface{}) *Result {
 			continue
 		}
 
-		err := validator.Validate(data)
 		if p.Options.recycleValidators {
-			p.validators[idx] = nil // prevents further (unsafe) usage
+			// the validator redeems itself when it returns or panics: release the slot first
+			p.validators[idx] = nil
 		}
+		err := validator.Validate(data)
 		if err != nil {
 			if err.HasErrors() {
 				result.Merge(err)
@@ -582,10 +584,11 @@ func (p *ParamValidator) Validate(data interface{}) *Result {
 			continue
 		}
 
-		err := validator.Validate(data)
 		if p.Options.recycleValidators {
-			p.validators[idx] = nil // prevents further (unsafe) usage
+			// the validator redeems itself when it returns or panics: release the slot first
+			p.validators[idx] = nil
 		}
+		err := validator.Validate(data)
 		if err != nil {
 			if err.HasErrors() {
 				result.Merge(err)
